@@ -13,12 +13,17 @@ META = {
         "distance counts unequal positions, and that compare_with_config is the sum of the four same-typed part "
         "comparisons with the length term exactly in Default mode.  The body-distance kernels are tied together by "
         "sibling agreement of their normalised operation DAGs (pseudo-SIMD 32/64, SSE2, SSE4.1, AVX2, and NEON on aarch64) and their "
-        "load coverage; the truth of the shared bit-sliced arithmetic is NOT decided (it would need evaluating the "
-        "DAG on dibit pairs, i.e. execution)."
+        "load coverage.  The arithmetic of the shared core is decided by an abstract interpretation of the extracted "
+        "operation DAG over byte lanes: each DAG node is given a 65,536-entry table (the lane's byte for every pair of "
+        "lane input bytes) and a mask of bits a neighbouring lane could influence, with exact transfer functions for "
+        "masks, shifts, carry-free adds and borrow-free subtractions; the core is accepted when no such bit remains and "
+        "the table is the sum of the lane's four dibit distances (|a-b|, 3 -> 6).  This is a finite-domain evaluation "
+        "of the dataflow graph taken from MIR (like the table checks), not an execution of the crate; the horizontal "
+        "sums of each backend are shown not to overflow their lanes."
     ),
     "trusted_base": ["rustc nightly front end and constant evaluator", "core::arch intrinsics semantics (names only)"],
     "assumptions": ["analysed targets: x86_64 and aarch64 (NEON kernel, type-checked with -Zbuild-std, never executed), i686 in the thorough tier; portable-SIMD kernels do not compile with the installed nightly and are not analysed"],
-    "not_decided": ["that the shared body-distance kernel computes sum |x-y| with 3->6", "a slip made identically in all five kernels"],
+    "not_decided": ["the portable-SIMD kernels (do not compile with the installed nightly)"],
 }
 
 
